@@ -113,7 +113,7 @@ func runC10(c *run.Ctx) {
 		"positions enumerated over all selections (sampled in quick), containers: root, object, interface, union member; back-ends iface/any/reflect. Oracle: errors non-empty and naming the offender, " +
 		"call log shows the offending resolver not invoked (with it), and, when data is returned, every other position equals the reference run of the document without the offending selection. " +
 		"All injected cases are non-trivial; distinct by (document text, back-end)"
-	nt := c.N(150, 4000)
+	nt := c.N(250, 4000)
 	per := c.N(2, 1000)
 	defects := []string{"unknown-field", "undeclared-arg-alone", "undeclared-arg-beside", "undeclared-arg-replacing", "missing-required-arg",
 		"unknown-directive", "misplaced-directive", "undefined-inline-type", "undefined-fragment-type", "undefined-spread",
@@ -490,7 +490,7 @@ func runC10(c *run.Ctx) {
 // every position whose concrete type does not define the field there must be an error naming it with that position's
 // path, the value there must be null or absent, and positions whose type does define it carry no such error.
 func c10Menagerie(c *run.Ctx) int {
-	n := c.N(150, 6000)
+	n := c.N(400, 6000)
 	done := 0
 	own := map[string]string{"Dog": "barks", "Cat": "lives", "Eel": "volts"}
 	for i := 0; i < n && !c.TooMany(); i++ {
